@@ -6,6 +6,7 @@
 mod checks;
 mod core;
 mod eng_a;
+mod eng_b;
 mod json;
 mod prng;
 mod runner;
